@@ -365,6 +365,12 @@ func (p *Planner) tryOptimizeJoinDirectionByFilter(node *invertibleTypeJoin, par
 				mapper.Field{Name: subFieldName, Index: subFieldInd})
 
 			fieldFilter := extractRelatedSubFilter(relevantFilter, node.parentSide.plan.DocumentMap(), relatedField)
+			if !node.parentSide.relFieldDef.Value().Kind.IsArray() && fieldFilter != nil &&
+				mayHoldWithoutValue(fieldFilter.Conditions) {
+				// A document that has no related document reads all its fields as nil: it may satisfy the
+				// condition, and it is never reached from the related collection.
+				continue
+			}
 			// At the moment we just take the first index, but later we want to run some kind of analysis to
 			// determine which index is best to use. https://github.com/sourcenetwork/defradb/issues/2680
 			err := node.invertJoinDirectionWithIndex(indexes[0], fieldFilter, nil)
@@ -375,6 +381,34 @@ func (p *Planner) tryOptimizeJoinDirectionByFilter(node *invertibleTypeJoin, par
 		}
 	}
 	return false, nil
+}
+
+// mayHoldWithoutValue returns true if the conditions contain an operator that can be satisfied by nil.
+func mayHoldWithoutValue(conditions map[connor.FilterKey]any) bool {
+	for key, value := range conditions {
+		if operator, ok := key.(*mapper.Operator); ok {
+			switch operator.Operation {
+			case connor.NotEqualOp, connor.NotInOp, connor.NotLikeOp, connor.CaseInsensitiveNotLikeOp:
+				return true
+			case connor.InOp:
+				if values, ok := value.([]any); ok {
+					for _, v := range values {
+						if v == nil {
+							return true
+						}
+					}
+				}
+			default:
+				if value == nil {
+					return true
+				}
+			}
+		}
+		if nested, ok := value.(map[connor.FilterKey]any); ok && mayHoldWithoutValue(nested) {
+			return true
+		}
+	}
+	return false
 }
 
 // extractRelatedSubFilter extracts the sub filter from the parent filter.
